@@ -1214,3 +1214,49 @@ class AnswerRouteMonitor(GroundTruth):
         return (tuple(sorted((e, r["sid"], r["j"], tuple(r["frames"]), tuple(a[0] for a in r["attempts"])) for e, r in self.req.items())),
                 tuple(sorted((sid, g["kind"], g["peer"], g["ce_ok"], g["node_closed"] is not None, g["env_closed"] is not None, g["dpr_in"])
                              for sid, g in self.c.items())))
+
+
+class RequestTargetMonitor(GroundTruth):
+    """C10 (dynamic part): every application request the node writes goes to a socket whose connection is ready *now*
+    and whose peer is configured for the request's application and realm (or is a default peer of the realm)."""
+
+    def step(self):
+        sc = self.sc
+        cfg = sc.cfg
+        vs = []
+        for ev in self.events():
+            self.absorb(ev)
+            if ev[0] != "out":
+                continue
+            t, sid, f = ev[1], ev[2], ev[3]
+            if not f.h.is_request or f.h.code in (257, 280, 282):
+                continue
+            g = self.conn(sid)
+            fs = next((s.fs for s in sc.socks if s.fs.sid == sid), None)
+            why = None
+            if not g["ce_ok"]:
+                why = "capabilities-exchange-not-completed"
+            elif g["dpr_in"] or g["dpr_out"]:
+                why = "disconnecting-after-a-DPR"
+            elif g["env_closed"] is not None or g["node_closed"] is not None:
+                why = "closed"
+            if why:
+                vs.append((f"route-request:request-written-to-a-connection-that-is-{why}", f"socket {sid}: {f!r}"))
+                continue
+            realm = (f.get(283) or b"").decode()
+            peer_i = next((i for i, pc in enumerate(cfg["peers"]) if pc["name"] == g["peer"]), None)
+            ok = False
+            for a in cfg.get("apps", []):
+                if a["id"] == f.h.app and peer_i in a.get("peers", []) and \
+                        realm in ({cfg["peers"][peer_i].get("realm", env.NODE_REALM)} | set(a.get("realms", []))):
+                    ok = True
+            if peer_i is not None and cfg["peers"][peer_i].get("default") and cfg["peers"][peer_i].get("realm", env.NODE_REALM) == realm:
+                ok = True
+            if not ok:
+                vs.append(("route-request:request-written-to-a-peer-not-configured-for-application-and-realm", f"socket {sid} peer {g['peer']}: {f!r}"))
+        # a caller that got NotRoutable although an eligible connection was ready all along is judged in part A
+        return vs
+
+    def state(self):
+        return tuple(sorted((sid, g["ce_ok"], g["dpr_in"], g["dpr_out"], g["env_closed"] is not None, g["node_closed"] is not None)
+                            for sid, g in self.c.items()))
